@@ -138,7 +138,15 @@ def tee_case(draw, tier):
          # the target may already hold the (longer) output of an earlier run: a tee replaces it, as to* does
          "prefill": draw(st.booleans())}
     if fmt in ("csv", "tsv"):
-        c["kw"] = {"write_header": draw(st.booleans()), "encoding": draw(st.sampled_from(["utf-8", "latin-1", "utf-8-sig"] if kind in ("plain", "mem") else ["utf-8", "latin-1"]))}
+        c["kw"] = {"encoding": draw(st.sampled_from(["utf-8", "latin-1", "utf-8-sig"] if kind in ("plain", "mem") else ["utf-8", "latin-1"]))}
+        wh = draw(st.sampled_from([True, False, None]))   # None: the argument is omitted (tee and to* share the default)
+        if wh is not None:
+            c["kw"]["write_header"] = wh
+        if draw(st.integers(0, 2)) == 0:
+            import csv as _csv
+            c["kw"]["quoting"] = draw(st.sampled_from([_csv.QUOTE_ALL, _csv.QUOTE_MINIMAL, _csv.QUOTE_NONNUMERIC]))
+        if draw(st.integers(0, 3)) == 0:
+            c["kw"]["quotechar"] = "'"
         if draw(st.booleans()):
             c["kw"]["delimiter"] = draw(st.sampled_from([";", "|", ","]))
         if draw(st.booleans()):
@@ -147,9 +155,13 @@ def tee_case(draw, tier):
         if draw(st.integers(0, 2)) == 0:
             c["kw"]["dialect"] = draw(st.sampled_from(["unix", "excel", "excel-tab"]))
     elif fmt == "pickle":
-        c["kw"] = {"write_header": draw(st.booleans()), "protocol": draw(st.sampled_from([-1, 0, 2]))}
+        c["kw"] = {"protocol": draw(st.sampled_from([-1, 0, 2]))}
+        wh = draw(st.sampled_from([True, False, None]))
+        if wh is not None:
+            c["kw"]["write_header"] = wh
     elif fmt == "text":
-        c["kw"] = {"template": draw(st.sampled_from(["{a}\n", "{a}|{a}\r\n", "row {a}", "{a!r} "])), "encoding": "utf-8"}
+        tmpls = ["{a}\n", "{a}|{a}\r\n", "row {a}", "{a!r} "] + (["{b}-{a}\n", "{a!s:>4}|{b!r}\n"] if nf >= 2 else []) + (["{c}{b}{a}\n"] if nf >= 3 else [])
+        c["kw"] = {"template": draw(st.sampled_from(tmpls)), "encoding": draw(st.sampled_from(["utf-8", "utf-8", "latin-1", "utf-16"]))}
         if draw(st.booleans()):
             c["kw"]["prologue"] = "start\n"
         if draw(st.booleans()):
